@@ -63,7 +63,41 @@ class Engine:
         f = self.repo.func(qual)
         if "frozen_fields" not in kw and f.cls:
             kw["frozen_fields"] = self.init_only_fields(f"{f.module}.{f.cls}")
+        if "inline" not in kw:
+            kw["inline"] = self.inline_policy
         return SymEval(self.ce, f, **kw).run()
+
+    @cached_property
+    def role_functions(self) -> set:
+        roles = set(PUBLIC_ANCHORS)
+        for r in ("read_primitive", "line_primitive", "frame_assembler", "ubx_skipper", "nmea_skipper", "error_dispatcher", "single_field_routine",
+                  "map_builder", "group_routine", "dispatch_routine", "optional_routine", "attributes_driver", "dict_selector", "stub_routine",
+                  "socket_receiver", "dechunker"):
+            try:
+                roles.add(getattr(self, r))
+            except AnalysisError:
+                pass
+        try:
+            roles |= set(self.decoder_cycle)
+        except AnalysisError:
+            pass
+        return roles
+
+    def inline_policy(self, call_node, callee_term, caller: FuncInfo):
+        """Which callees the term evaluator inlines: private package helpers that are not one of the functions analysed in their
+        own right (public API and discovered roles).  Extracting a helper is the commonest behaviour-preserving refactoring."""
+        q = None
+        if callee_term[0] == "func":
+            q = callee_term[1]
+        elif callee_term[0] == "attr" and callee_term[1] == ("self",) and caller.cls:
+            q = f"{caller.module}.{caller.cls}.{callee_term[2]}"
+        fi = self.repo.funcs.get(q) if q else None
+        if fi is None or fi.is_property or q in self.role_functions:
+            return None
+        if not fi.name.startswith("_") or fi.name.startswith("__"):
+            return None
+        nstmts = sum(1 for n in ast.walk(fi.node) if isinstance(n, ast.stmt))
+        return fi if nstmts <= 40 else None
 
     def init_only_fields(self, clsq: str) -> frozenset:
         """Instance fields stored in the constructor and nowhere else in the class (their value cannot be changed by a
@@ -284,14 +318,17 @@ class Engine:
 
     @cached_property
     def group_routine(self) -> str:
-        """Member of the decoder cycle that loops `range(<count>)` over a group body."""
+        """Member of the decoder cycle that iterates a group body repeatedly: a loop (of any kind) nested in a loop, the
+        inner one calling back into the cycle."""
         c = []
         for q in self.decoder_cycle:
             f = self.repo.func(q)
             for n in walk_no_nested(f.node):
-                if isinstance(n, ast.For) and isinstance(n.iter, ast.Call) and norm(n.iter.func) == "range":
-                    if any(isinstance(x, ast.For) for x in ast.walk(n) if x is not n):
+                if isinstance(n, (ast.For, ast.While)):
+                    inner = [x for x in ast.walk(n) if x is not n and isinstance(x, (ast.For, ast.While))]
+                    if any(isinstance(y, ast.Call) and isinstance(y.func, ast.Attribute) and isinstance(y.func.value, ast.Name) and y.func.value.id == "self" for x in inner for y in ast.walk(x)):
                         c.append(q)
+                        break
         return self._one("group routine", c)
 
     @cached_property
